@@ -33,6 +33,15 @@ def where_raised(exc):
     return best or "outside-mlinsights"
 
 
+def raised_inside_peer(exc):
+    """True when the exception was raised by (or below) a peer estimator's own
+    method: the inner estimator refused its input."""
+    for fr in traceback.extract_tb(exc.__traceback__):
+        if fr.filename.endswith(os.path.join("dsim", "peers.py")):
+            return True
+    return False
+
+
 def short_exc(exc):
     return "%s: %s" % (type(exc).__name__, str(exc)[:300])
 
